@@ -198,6 +198,7 @@ def ops_for(ty):
     return R
 
 # ------------------------------------------------------------------------------------------------ generic-width posits
+GG_WIDTHS = (2, 3, 4, 5, 7, 8, 9, 12, 15, 16, 17, 20, 24, 25, 28, 31, 32)   # second width of the generic-to-generic conversions instantiated in the harness
 PX = {'px1': dict(T='PxE1', mod='pxe1', es=1, fmt='Spec.px1'), 'px2': dict(T='PxE2', mod='pxe2', es=2, fmt='Spec.px2')}
 
 def px_ops(ty):
@@ -254,6 +255,18 @@ def px_ops(ty):
         add('from_' + o + '_m', [o], 'X', f'{T}::<N>::from_{m2}(x)', f'crate.convert.{T}.from_{m2} n x', f'some (Spec.embed n (Spec.conv {t2["fmt"]} {F} a))', 'C14')
         add(o + '_to_px', [o], 'X', f'x.to_{m}::<N>()', f'crate.convert.{T2}.to_{m} n x', f'some (Spec.embed n (Spec.conv {t2["fmt"]} {F} a))', 'C14')
         add(o + '_from_px', 'X', o, f'{T2}::from_{m}(x)', f'crate.convert.{T2}.from_{m} n x', X1(f'Spec.conv {F} {t2["fmt"]} a'), 'C14')
+    # generic-to-generic (C14: "to another generic width or exponent size"): second width M is the first argument (x), the M- resp.
+    # N-bit source pattern the second (y); the harness instantiates the source/target widths of GG_WIDTHS
+    o_es = '2' if ty == 'px1' else '1'; O = 'PxE' + o_es; om = 'pxe' + o_es; OF = f'Spec.px{o_es}'
+    def mm(e): return 'match x { ' + ' '.join(f'{M} => {{ {e.replace("@M", str(M))} }}' for M in GG_WIDTHS) + ' _ => return None }'
+    src_o = f'(if 2 ≤ n ∧ n ≤ 32 then Spec.pxLift1 a b (fun s => Spec.embed n (Spec.conv ({OF} a) {F} s)) else none)'
+    add(f'gg_from_px{o_es}', ['u32', 'u32'], 'X', mm(f'{T}::<N>::from_{om}({O}::<@M>::from_bits(y))'), f'crate.convert.{T}.from_{om} n x (Rs.cast_u32_i32 y)', src_o, 'C14')
+    add(f'gg_From_px{o_es}', ['u32', 'u32'], 'X', mm(f'{T}::<N>::from({O}::<@M>::from_bits(y))'), f'crate.convert.{T}.From_{O}.from x n (Rs.cast_u32_i32 y)', src_o, 'C14')
+    add(f'gg_to_px{o_es}', ['u32', 'u32'], 'u32', mm(f'{T}::<N>::from_bits(y).to_{om}::<@M>().to_bits()'), f'(do let r ← crate.convert.{T}.to_{om} n x (Rs.cast_u32_i32 y); pure (Rs.cast_i32_u32 r))',
+        f'(if 2 ≤ a ∧ a ≤ 32 then Spec.pxLift1 n b (fun s => Spec.embed a (Spec.conv {F} ({OF} a) s)) else none)', 'C14')
+    if ty == 'px2':
+        add('gg_from_px2', ['u32', 'u32'], 'X', mm(f'{T}::<N>::from_pxe2({T}::<@M>::from_bits(y))'), f'crate.convert.{T}.from_pxe2 n x (Rs.cast_u32_i32 y)',
+            f'(if 2 ≤ n ∧ n ≤ 32 then Spec.pxLift1 a b (fun s => Spec.embed n (Spec.conv (Spec.px2 a) {F} s)) else none)', 'C14')
     return R
 
 
